@@ -805,6 +805,11 @@ func dumpData(size int64, data map[int64]byte) [][2]int64 {
 func (f *FS) Dump(durable bool) []Entry {
 	f.mu.Lock()
 	defer f.mu.Unlock()
+	return f.DumpLocked(durable)
+}
+
+// DumpLocked is Dump for callers that already hold the lock (the AfterOp hook).
+func (f *FS) DumpLocked(durable bool) []Entry {
 	var out []Entry
 	var rec func(p string, n *inode)
 	rec = func(p string, n *inode) {
